@@ -14,6 +14,7 @@ from ..core.acc import confirmed, second_attempt
 from ..core.runner import split_range
 from ..core.watchdog import watchdog, CaseTimeout
 from ..workloads import gen_expect as G
+from ..workloads.puppetctl import PeerError
 
 ID = 'C14'
 LEVEL = 'exploration'
@@ -517,6 +518,8 @@ def guarded(case, acc):
                 timeout0_case(case, acc)
             else:
                 one(case, acc)
+    except PeerError as e:
+        acc.inconc('peer: %s' % e)
     except CaseTimeout as e:
         second_attempt(acc, case, lambda: (timeout0_case if case.get('t0') else one)(case, acc), limit,
                        'history did not finish within %d s (every call in it has a timeout of %s s)' % (
